@@ -58,7 +58,7 @@ var explainRound4 = map[string]string{
 // explainRound5: rules written in response to the fifth seeding round.
 var explainRound5 = map[string]string{
 	"C01": " Round 5: (W) the window rule also covers reads made by a module helper that indexes its (slice, index) parameters without a length test of its own (util.ToRune), and both edges of every comparison with a length count as guards; (Q) all comparisons with one named byte constant (\"class\") agree on case sensitivity — the attribute parser's type check and its merge step must recognise the same spellings.",
-	"C02": " Round 5: (L) a table keyed by lower-case words (the HTML block tag names) is looked up only with lower-cased keys.",
+	"C02": " Round 5: (L) a table keyed by lower-case words (the HTML block tag names) is looked up only with lower-cased keys; (S) in the resolving writer every feasible loop cycle that writes nothing moves the index by exactly one byte (a failed reference look-ahead is rewound), so no byte is skipped undecoded.",
 	"C06": " Round 5: (G) configuration-time code — every New… and With… function, its closures and static callees — writes no memory rooted at a package-level variable (reviewed exceptions: the node-kind and context-key registries).",
 	"C08": " Round 5: (R) render functions never slice the source between positions of two different segments (= C10).",
 	"C10": " Round 5: (A) every constructor taking functional options applies them to the object it returns (in place through a pointer into it, or through a copy that is stored back); (R) render functions read node text segment by segment — the source between two segments holds container markers, so Unsafe output would differ from safe output by more than the placeholder.",
